@@ -267,6 +267,7 @@ pub fn c02(t: &Table, o: &Outcome, interrupted: bool, exempt: Option<&Solution>)
 pub fn body<D: Dd, C: Cache<State = St> + Default>(c: &SolveCase) {
     let t = Table::new(&c.shape, c.rub.clone(), c.sym_init);
     t.mon.lock().unwrap().expect_impacted = D::POOLED;
+    t.mon.lock().unwrap().check_protocol = c.props.is_empty() || c.props.iter().any(|p| p == "C12");
     let all = enumerate(&t, 0, t.sh.root);
     let opt = max_of(all.iter().map(|p| t.init.plus(p.value)));
     if opt.is_none() {
